@@ -111,6 +111,26 @@ def main():
         ls[i]["graph"]["edges"] = ls[i]["graph"]["edges"][:-1]
     experiment("drop one edge of a conflict graph", "C03_", unsat_to_sat_graph)
 
+    # the small trace specifications: one recorded history each, one field corrupted
+    import subprocess
+    for (cmd, spec, field, expect) in (("pool-histories", "Trace_Pool", "ret", "C18_Id"),
+                                       ("pool-histories", "Trace_Pool", "stable", "C18_ReferenceChanged"),
+                                       ("mapping-histories", "Trace_Mapping", "len", "C19_Len")):
+        t = os.path.join(wd, cmd + ".trace")
+        subprocess.run([exe, cmd, "--n", "2", "--seed", "7", "--out", t] + (["--ops", "300"] if "pool" in cmd else []),
+                       check=True)
+        hl = load(t)
+        f0, _, _, _ = vlib.validate_trace(t, spec + ".tla", spec + ".cfg", tag="self")
+        i = [k for k, l in enumerate(hl) if l["ev"] == "op"][len(hl) // 3]
+        hl[i][field] = (not hl[i][field]) if isinstance(hl[i][field], bool) else hl[i][field] + 1
+        p = os.path.join(wd, "mut_" + cmd + ".trace")
+        dump(hl, p)
+        f1, _, _, _ = vlib.validate_trace(p, spec + ".tla", spec + ".cfg", tag="self")
+        r = sorted({f["rule"] for f in f1})
+        results.append({"corruption": f"{spec}: change the field '{field}' of one recorded operation",
+                        "original_accepted": f0 == [], "rules_broken": r, "expected": expect,
+                        "ok": f0 == [] and expect in r})
+
     ok = all(r.get("ok", True) for r in results)
     os.makedirs(vlib.EVIDENCE, exist_ok=True)
     json.dump({"binding_demonstrations": results, "all_as_expected": ok},
